@@ -56,7 +56,7 @@ def _walk_bodies(el):
 @st.composite
 def rich_models(draw, max_bodies=4, assets=True, defaults=True, frames=True, replicate=True, contact=True,
                 custom=True, keyframes=True, compiler=True, sizes=True, visual=True, extras=True, min_meshes=0,
-                min_textures=0, usethread=None, base_kwargs=None, hull=True, memory=None):
+                min_textures=0, usethread=None, base_kwargs=None, hull=True, memory=None, fusestatic=True):
   kw = dict(max_bodies=max_bodies, sensors=True, mocap=True, userdata=True, cameras=True, lights=True,
             opt_kwargs=dict(sleep=False))
   kw.update(base_kwargs or {})
@@ -91,7 +91,7 @@ def rich_models(draw, max_bodies=4, assets=True, defaults=True, frames=True, rep
       comp['saveinertial'] = 'true'
     if draw(st.integers(0, 11)) == 0:      # rare: the writer drops it (C32 finding)
       comp['inertiagrouprange'] = '0 %d' % draw(st.integers(2, 5))
-    if draw(st.integers(0, 6)) == 0:
+    if fusestatic and draw(st.integers(0, 6)) == 0:
       comp['fusestatic'] = 'true'
   if usethread is not None:
     comp['usethread'] = 'true' if usethread else 'false'
